@@ -50,6 +50,16 @@ def gen_cases(tier: str, seed: int):
         yield {"spec": spec, "ispec": ispec, "frac": float(np.exp(rng.uniform(np.log(lo), np.log(hi)))),
                "n": int(rng.choice([1, 2, 3, 5, 10, 25])), "dir": int(rng.choice([-1, 1])),
                "seed": [seed, int(rng.integers(0, 2**31))]}
+    # hostile constrained family: multi-branch / strongly non-linear manifolds, several inner steps, large steps --
+    # retractions that can converge to a different branch must be refused by the reversibility check, never returned
+    for i in range({"quick": 200, "thorough": 8000}[tier]):
+        k = zoo.CONSTRAINED[i % 3]
+        spec = zoo.random_sys_spec(rng, kinds=(k,), dim_range=(2, 3), metrics=("none", "diag", "dense"))
+        spec["constr"] = ["sine", "arctan_sphere", "sine", "sphere", "arctan_quadric", "sine"][i % 6]
+        ispec = intgen.random_int_spec(rng, k, tight=False, kinds=("constrained",))
+        ispec["n_inner_step"] = int(rng.integers(2, 5))
+        yield {"spec": spec, "ispec": ispec, "frac": float(np.exp(rng.uniform(np.log(0.3), np.log(4.0)))),
+               "n": int(rng.choice([1, 2, 4])), "dir": int(rng.choice([-1, 1])), "seed": [seed, int(rng.integers(0, 2**31))]}
 
 
 def run_case(case, obs) -> None:  # noqa: C901, PLR0912, PLR0915
